@@ -573,8 +573,9 @@ example (ops : List UOp) (hg : OpsGuarded ops St.init) :
 
 `UOp3` (DDProofs.Reach3) = `UOp2` + `configure(reordering=b)`.  `Good3` is `Good2` without the
 clause `_last_len = None`.  `⟪ops⟫₃` is the state after `ops` from the empty manager.  The guard
-adds one obligation: while reordering is enabled, a decorated operation is issued with at least
-two declared variables. -/
+is that of `UOp2`, nothing more: neither "operands held" nor "two variables declared" is needed
+for the invariant; they are hypotheses of the theorems that describe RESULTS (C09) and of "the
+switch is unchanged". -/
 
 local notation "⟪" ops "⟫₃" => run3 ops St.init
 
@@ -651,13 +652,15 @@ theorem C02_canonical_every_history3 (ops : List UOp3) (hg : Ops3Guarded ops St.
 /-- C06 / C07 with reordering switched on and off in the history: the counts are exact, and the
 next call — a decorated operation that sifts the manager, an explicit reordering, a collection —
 keeps every reference the user holds: a node under the same number, the same function by name,
-counter = stored edges + the user's references; the switch is changed by `configure` only and
-the internal signal never reaches the user -/
+counter = stored edges + the user's references; the internal signal never reaches the user; the
+switch is changed by `configure` only (outside the situation `SwitchSafe` excludes: reordering
+enabled, a decorated call, fewer than two variables) -/
 theorem C06_held_every_history3 (ops : List UOp3) (hg : Ops3Guarded ops St.init) (op : UOp3)
     (hop : OpGuard3 ⟪ops⟫₃.m ⟪ops⟫₃.ext op) :
     RefExact ⟪ops⟫₃.m ⟪ops⟫₃.ext ∧ Good3 (step3 op ⟪ops⟫₃).m (step3 op ⟪ops⟫₃).ext ∧
     (runOp3 op ⟪ops⟫₃.m).1 ≠ .error .needsReordering ∧
-    (step3 op ⟪ops⟫₃).m.lastLen.isSome = op.switchAfter ⟪ops⟫₃.m.lastLen.isSome ∧
+    (SwitchSafe ⟪ops⟫₃.m op →
+      (step3 op ⟪ops⟫₃).m.lastLen.isSome = op.switchAfter ⟪ops⟫₃.m.lastLen.isSome) ∧
     ∀ u : Int, 0 < ⟪ops⟫₃.ext u.natAbs →
       ⟪ops⟫₃.m.tbl.Mem u ∧ (step3 op ⟪ops⟫₃).m.tbl.Mem u ∧
       (∀ σ, denN (step3 op ⟪ops⟫₃).m.tbl u σ = denN ⟪ops⟫₃.m.tbl u σ) ∧
@@ -670,8 +673,8 @@ theorem C06_held_every_history3 (ops : List UOp3) (hg : Ops3Guarded ops St.init)
 
 /-- C17 with reordering switched on and off in the history: after ANY history a call that raises
 — reordering enabled or not, in the first attempt or in the RETRY after a sifting — never raises
-the internal signal and leaves a good state: the ledger untouched, reordering enabled iff it was,
-every held reference a node with the same function by name; hence every theorem applies to the
+the internal signal and leaves a good state: the ledger untouched, reordering enabled iff it was
+(two variables declared), every held reference a node with the same function by name; hence every theorem applies to the
 next call, whatever it is; and with two variables declared the next `ite` on held operands
 returns the if-then-else of the operands AS THEY WERE BEFORE the rejected call, by name -/
 theorem C17_error_then_normal_dyn_history (ops : List UOp3) (hg : Ops3Guarded ops St.init) (op : UOp3)
@@ -679,7 +682,7 @@ theorem C17_error_then_normal_dyn_history (ops : List UOp3) (hg : Ops3Guarded op
     e ≠ .needsReordering ∧
     Good3 (step3 op ⟪ops⟫₃).m (step3 op ⟪ops⟫₃).ext ∧
     (step3 op ⟪ops⟫₃).ext = ⟪ops⟫₃.ext ∧
-    (step3 op ⟪ops⟫₃).m.lastLen.isSome = ⟪ops⟫₃.m.lastLen.isSome ∧
+    (2 ≤ ⟪ops⟫₃.m.nvars → (step3 op ⟪ops⟫₃).m.lastLen.isSome = ⟪ops⟫₃.m.lastLen.isSome) ∧
     (∀ w : Int, HeldX ⟪ops⟫₃.ext w → (step3 op ⟪ops⟫₃).m.tbl.Mem w ∧
       ∀ σ, denN (step3 op ⟪ops⟫₃).m.tbl w σ = denN ⟪ops⟫₃.m.tbl w σ) ∧
     (∀ op2 : UOp3, OpGuard3 (step3 op ⟪ops⟫₃).m (step3 op ⟪ops⟫₃).ext op2 →
@@ -694,9 +697,11 @@ theorem C17_error_then_normal_dyn_history (ops : List UOp3) (hg : Ops3Guarded op
   have hS : Good3 (step3 op ⟪ops⟫₃).m (step3 op ⟪ops⟫₃).ext := step3_inv _ _ op hG hop
   have hl : (step3 op ⟪ops⟫₃).ext = ⟪ops⟫₃.ext := rejected3_ledger _ _ op hG hop e hrej
   have hH : Held2 ⟪ops⟫₃.ext ⟪ops⟫₃.m (step3 op ⟪ops⟫₃).m := step3_heldSame _ _ op hG hop
-  have hsw : (step3 op ⟪ops⟫₃).m.lastLen.isSome = ⟪ops⟫₃.m.lastLen.isSome := by
+  have hsw : 2 ≤ ⟪ops⟫₃.m.nvars →
+      (step3 op ⟪ops⟫₃).m.lastLen.isSome = ⟪ops⟫₃.m.lastLen.isSome := by
+    intro h2
     cases op with
-    | op o => exact step3_switch _ _ (.op o) hG hop
+    | op o => exact step3_switch _ _ (.op o) hG hop (switchSafe_of_two _ _ h2)
     | configure b =>
       exfalso
       have h1 := (configure_step3 ⟪ops⟫₃.m ⟪ops⟫₃.ext hG b).2.2.2.2
@@ -790,6 +795,19 @@ example : Good3 (step3 (.op (.base (.ite 7 1 (-1)))) ⟪exHistoryD.take 9⟫₃)
     (step3 (.op (.base (.ite 7 1 (-1)))) ⟪exHistoryD.take 9⟫₃).ext :=
   (C17_error_then_normal_dyn_history (exHistoryD.take 9) (by decide +kernel) _ (by decide +kernel)
     .key exHistoryD_rejected.1).2.1
+
+/-- ONE variable and reordering enabled: no guard excludes the decorated calls, the explicit
+sifting is REJECTED (`ValueError`: `min()` of an empty dict) and leaves a good state -/
+def exHistoryOne : List UOp3 :=
+  [ .op (.base (.declare "x" none)), .configure true, .op (.base (.var "x")),
+    .op (.base (.incref 2)), .op (.base (.apply "and" 2 (some (-2)) none)), .op (.sift []) ]
+
+theorem exHistoryOne_guarded : Ops3Guarded exHistoryOne St.init := by decide +kernel
+
+example : (results3 exHistoryOne St.init).map resCode3 = [1000, 0, 2, 0, -1, -1000] ∧
+    ⟪exHistoryOne⟫₃.m.nvars = 1 ∧ ⟪exHistoryOne⟫₃.m.lastLen.isSome = true := by decide +kernel
+
+example : Good3 ⟪exHistoryOne⟫₃.m ⟪exHistoryOne⟫₃.ext := reachable3_inv exHistoryOne exHistoryOne_guarded
 
 /-! #### a history in which dynamic reordering FIRES (naturally: `len ≥ 2 * _last_len`)
 
